@@ -122,8 +122,9 @@ Record InvP (evl : evlist) (g : ghost) (w : world) : Prop := {
   i_csc : cs_complete (w_st w);
   i_csb : forall x, set_mem x (cset (w_st w)) = true -> (x < length (ents (w_st w)))%nat;
   i_clk : lastch (w_st w) <= now (w_st w);
+  (* a punt moves a stamp one unit past the clock reading of its step; the next step's tick is 1000 units *)
   i_clke : forall e en, nth_error (ents (w_st w)) e = Some en ->
-           maxchg en <= now (w_st w) /\ forall sd, x_lg (getx w e sd) <= now (w_st w);
+           maxchg en <= now (w_st w) + 1 /\ forall sd, x_lg (getx w e sd) <= now (w_st w) + 1;
   i_roots : root_ent_ok (w_st w);
   i_cov : forall sd k, (2 <= k)%nat -> (k < length (ProvModel.p_heap (prov_of w sd)))%nat ->
           (exists e en, nth_error (ents (w_st w)) e = Some en /\ s_oid (gs en sd) = Some (ostr_k k)) \/ pd evl sd k = true;
@@ -222,7 +223,7 @@ Lemma inv_master evl evl' g g' w w' e en' :
   (forall x, x <> e -> set_mem x (cset (w_st w')) = set_mem x (cset (w_st w))) ->
   (flagged en' = true -> set_mem e (cset (w_st w')) = true) ->
   now (w_st w) <= now (w_st w') -> lastch (w_st w') <= now (w_st w') ->
-  maxchg en' <= now (w_st w') -> (forall sd, x_lg (getx w' e sd) <= now (w_st w')) ->
+  maxchg en' <= now (w_st w') + 1 -> (forall sd, x_lg (getx w' e sd) <= now (w_st w') + 1) ->
   tape (w_st w') = [] -> IdxJ (w_st w') ->
   (forall x sd, x <> e -> getx w' x sd = getx w x sd) ->
   (forall x xn, x <> e -> (2 <= x)%nat -> nth_error (ents (w_st w)) x = Some xn ->
